@@ -1,15 +1,21 @@
 (* C02 — bigBed write/read round trip, item count, autoSql.  Statements only, each closed by [exact].
 
-   Level reached (list level + section codec): what the writer's per-entry checks accept; that the
+   Two levels.  (1) List level + section codec: what the writer's per-entry checks accept; that the
    accepted input is cut, per chromosome and in input order, into chunks of items_per_slot; that a
    full-span read over those chunks (block test with span [first start, LARGEST end], then the
    reader's per-entry filter) returns every entry in input order for every overlap pattern; that
    decoding an encoded section returns its entries (no NUL in rest, not [0,0)); the item count; the
-   autoSql slot.  The remaining byte level (header, chromosome tree, index bytes -> search) is
-   Properties/C05.v plus the byte-exact correspondence of Model/BigBedWrite.v / Model/BBIReadBed.v
-   with the real writer and reader. *)
+   autoSql slot.  (2) The bytes of the written file (C02_file_roundtrip): for every file the writer
+   model produces - any options, any summary sweep, any zoom part with at most 10 levels - the
+   reader model opens it, and each chromosome's full-span query returns its entries in input order,
+   item_count() is the number of entries, autosql() is the supplied text (or BED3), and the
+   chromosome table lists exactly the chromosomes that had data, ids in first-appearance order,
+   with the supplied sizes.  This goes through header, chromosome tree, index bytes (C05), block
+   offsets and the record codec; it is tied to the real writer and reader by the byte-exact
+   correspondence of Model/BigBedWrite.v / Model/BBIReadBed.v. *)
 From BT Require Import Base.Util Base.LE Base.Float Generated.Consts Model.RTree Model.BBIFile Model.BigWigWrite Model.BBIRead
-  Model.BigBedWrite Model.BBIReadBed Model.EntryBBI Proofs.Chunks Proofs.RTreeCodec Proofs.BedQuery Proofs.BedCodec.
+  Model.BigBedWrite Model.BBIReadBed Model.EntryBBI Proofs.Chunks Proofs.RTreeCodec Proofs.BedQuery Proofs.BedCodec
+  Proofs.BedReadInfo Proofs.BedEndToEnd Proofs.BedZoomFit.
 Local Open Scope N_scope.
 
 (* the writer's per-chromosome checks accept exactly: start <= end, start < chromosome length
@@ -67,6 +73,47 @@ Theorem C02_autosql_nul_refused : forall s, ~ no_nul s -> forall r, bb_schema (S
 Proof. exact bb_schema_nul_refused. Qed.
 Print Assumptions C02_autosql_nul_refused.
 
+(* THE FILE LEVEL.  Hypotheses (file_hyps): block_size <= 65535 (block_size >= 2 and
+   items_per_slot >= 1 are enforced by the writer, as is "one run per chromosome name");
+   fewer than 65536 chromosomes; names without NUL and
+   shorter than 2^32 bytes; every entry has start,end < 2^32, no NUL in rest and is not [0,0) (K2);
+   supplied sizes < 2^32; the file is at most 2^64 bytes.  The summary sweep and the zoom part are
+   arbitrary (a zoom part never yields more than 10 levels: zoom_levels_fit). *)
+Theorem C02_file_roundtrip : forall (sweep : list bchrom -> summary)
+    (zoom_part : list bchrom -> summary -> N -> N -> res (list N * list zoom_header)),
+  (forall outs sum a b zb zh, zoom_part outs sum a b = Ok (zb, zh) -> (length zh <= 10)%nat) ->
+  forall o sizes autosql input f, bb_write_gen sweep zoom_part o sizes autosql input = Ok f ->
+  file_hyps o sizes input f ->
+  exists i, read_info f = Ok i
+    /\ (forall infl c es, In (c, es) (bruns input) ->
+          exists len, lookup c sizes = Some len /\ bb_interval infl f i c 0 len = Ok es)
+    /\ (Nlen input < U64 -> bb_item_count f i = Ok (Nlen input))
+    /\ bb_autosql f i = Ok (Some (match autosql with Some s => s | None => AUTOSQL_BED3 end))
+    /\ map (fun c => (ci_name c, ci_id c)) (i_chroms i) = combine (map fst (bruns input)) (seqN 0 (length (bruns input)))
+    /\ Forall (fun c => lookup (ci_name c) sizes = Some (ci_len c)) (i_chroms i).
+Proof. exact file_roundtrip. Qed.
+Print Assumptions C02_file_roundtrip.
+
+(* ... in particular for the two real write paths (BigBedWrite::write / write_multipass with the
+   summary sweep and zoom levels of Model/BedSweep.v), in every floating-point mode: no side condition
+   on the zoom part is left, the writers never emit more than MAX_ZOOM_LEVELS levels *)
+Theorem C02_written_file_roundtrip : forall two_pass fp o sizes autosql input f,
+  bb_write_either two_pass fp o sizes autosql input = Ok f -> file_hyps o sizes input f ->
+  exists i, read_info f = Ok i
+    /\ (forall infl c es, In (c, es) (bruns input) ->
+          exists len, lookup c sizes = Some len /\ bb_interval infl f i c 0 len = Ok es)
+    /\ (Nlen input < U64 -> bb_item_count f i = Ok (Nlen input))
+    /\ bb_autosql f i = Ok (Some (match autosql with Some s => s | None => AUTOSQL_BED3 end))
+    /\ map (fun c => (ci_name c, ci_id c)) (i_chroms i) = combine (map fst (bruns input)) (seqN 0 (length (bruns input)))
+    /\ Forall (fun c => lookup (ci_name c) sizes = Some (ci_len c)) (i_chroms i).
+Proof. exact written_file_roundtrip. Qed.
+Print Assumptions C02_written_file_roundtrip.
+
+(* the runs of the input are its entries grouped by chromosome, in input order *)
+Theorem C02_runs_are_input : forall input, untag (bruns input) = input.
+Proof. exact bruns_untag. Qed.
+Print Assumptions C02_runs_are_input.
+
 (* K2 (known finding bb-entry-0-0): the entry [0,0) is accepted by the writer model, and the
    full-span read of the written file is refused with InvalidFile ("Chrom start and end both
    equal 0.").  Computed on the whole writer + reader model. *)
@@ -118,3 +165,22 @@ Example C02_example_run :
   | _ => False
   end.
 Proof. vm_compute. repeat split; reflexivity. Qed.
+
+(* the hypotheses of the file-level theorem are met by the example (the last one computed) *)
+Example C02_file_example_hyps :
+  let o := {| o_compress := false; o_ips := 2; o_bs := 2; o_izoom := 160; o_maxzooms := 0; o_manual := None; o_sort_all := true |} in
+  let input := map (fun x => (k2_name, x)) ex_entries in
+  (o_bs o <= 65535 /\ Nlen (bruns input) < U16 /\ input_ok input
+   /\ Forall (fun s : name * N => snd s < U32) [(k2_name, 40)])
+  /\ match bb_write_nosweep o [(k2_name, 40)] None input with
+     | Ok f => Nlen f <= U64
+     | _ => False
+     end.
+Proof.
+  cbv zeta. split; [|vm_compute; discriminate].
+  split; [cbn; lia|].
+  split; [vm_compute; reflexivity|]. split.
+  - unfold input_ok, ex_entries. repeat constructor; cbn [fst snd e_start e_end e_rest];
+      try (unfold U32; vm_compute; reflexivity); try discriminate; try (intros [? ?]; discriminate).
+  - repeat constructor; cbn; unfold U32; lia.
+Qed.
